@@ -84,7 +84,8 @@ package objects
 //@   props C03 C19
 //@   modifies nothing
 //@   requires validEnc(b) && u < ccount(b)
-//@   ensures off == coff(b, u) + 2 && n == clen(b, u) && off + n <= len(b)
+//@   reveal validEnc(b)
+//@   ensures off == coff(b, u) + 2 && n == clen(b, u) && off + n <= len(b) && off >= 6 && n >= 0
 //@   loop 1 invariant i <= u && off == coff(b, i) && l == len(b) && c == ccount(b)
 //@   loop 1 decreases ccount(b) - i
 
@@ -94,7 +95,7 @@ package objects
 //@ func (StrList).LessThan
 //@   props C02 C03 C19
 //@   modifies nothing
-//@   requires validEnc(b) && validEnc(c) && ccount(b) == ccount(c) && forall(k, 0, len(columns), columns[k] < ccount(b))
+//@   requires validEnc(b) && validEnc(c) && len(b) >= 4 && len(c) >= 4 && ccount(b) == ccount(c) && forall(k, 0, len(columns), columns[k] < ccount(b))
 //@   ensures len(columns) == 0 ==> (result <==> exists(k, 0, ccount(b), cmp3(cell(b, k), cell(c, k)) == -1 && forall(m, 0, k, cmp3(cell(b, m), cell(c, m)) == 0)))
 //@   ensures len(columns) > 0 ==> (result <==> exists(k, 0, len(columns), cmp3(cell(b, columns[k]), cell(c, columns[k])) == -1 && forall(m, 0, k, cmp3(cell(b, columns[m]), cell(c, columns[m])) == 0)))
 //@   loop 1 invariant i <= n && n == ccount(b) && len(columns) == 0 && forall(m, 0, i, cmp3(cell(b, m), cell(c, m)) == 0)
